@@ -103,16 +103,27 @@ func main() {
 		"trie shapes are observed by parsing the stored node encodings (read through trie.Database.Node) with a parser written in the check",
 	)
 
-	if *oneTrie >= 0 {
-		runTrieCase(*oneTrie, *oneSecure)
-		os.Exit(run.Finish())
-	}
-	if *oneState >= 0 {
-		runStateCase(*oneState)
-		os.Exit(run.Finish())
+	if *oneTrie >= 0 || *oneState >= 0 {
+		// replay of a single case: do not overwrite the evidence of the full run
+		scratch := ""
+		if os.Getenv("VERIF_EVIDENCE_DIR") == "" {
+			scratch = lib.Scratch("C11-replay")
+			os.Setenv("VERIF_EVIDENCE_DIR", scratch)
+		}
+		if *oneTrie >= 0 {
+			runTrieCase(*oneTrie, *oneSecure)
+		} else {
+			runStateCase(*oneState)
+		}
+		code := run.Finish()
+		if scratch != "" {
+			os.RemoveAll(scratch)
+		}
+		os.Exit(code)
 	}
 
 	guardProbes()
+	fixedCases()
 
 	nTrie := lib.Pick(9000, 400000)
 	nSecure := lib.Pick(3000, 100000)
@@ -132,7 +143,8 @@ func main() {
 
 	run.Require("trie_histories", int64(nTrie+nSecure))
 	run.Require("state_histories", int64(nState))
-	run.Require("lcp_nibbles_between_present_keys", 64) // shared prefixes of 0..63 nibbles (64 = same key, see ops_overwrite)
+	run.Require("lcp_nibbles_between_present_32byte_keys", 64) // shared prefixes of 0..63 nibbles (64 = same key, see ops_overwrite)
+	run.Require("lcp_nibbles_between_present_keys", 70)        // longer ones come from variable-length keys
 	run.Require("ops_overwrite", 1000)
 	run.Require("present_key_is_prefix_of_present_key", 500)
 	run.Require("ops_delete_present", 10000)
